@@ -173,6 +173,7 @@ def reused_symbol_events(rng, thorough):
 
 def main(tier):
     rep, bd, env, stats = qalg.run("C05", tier, "fail", "")
+    qalg.unknown_part(rep, bd, env, "fail", 12, tier == "thorough")
     rng = random.Random(common.seed() + 5)
     events = cross_type_events(env, rng, tier == "thorough")
     events += lookalike_events(env, rng, tier == "thorough")
